@@ -111,7 +111,8 @@ class BehavioralRTLIRGeneratorL1( ast.NodeVisitor ):
 
   def handle_constant( s, node, obj ):
     if isinstance( obj, int ):
-      return bir.Number( obj )
+      # bool is an int: a Python True/False constant is the number 1/0
+      return bir.Number( int( obj ) )
     elif isinstance( obj, Bits ):
       return bir.SizeCast( obj.nbits, bir.Number( obj.uint() ) )
     else:
